@@ -90,6 +90,15 @@ pub struct World {
     /// every accepted block by hash
     pub blocks: std::collections::HashMap<H32, bitcoin::Block>,
     pub now: u64,
+    /// every announced header that was offered (all valid and connected by construction)
+    pub announced: Vec<Announced>,
+}
+
+#[derive(Clone, Debug)]
+pub struct Announced {
+    pub hash: H32,
+    pub prev: H32,
+    pub height: u32,
 }
 
 /// Resets the thread's canister to a freshly initialised one.
@@ -138,6 +147,7 @@ impl World {
             refm,
             ids: vec![gh],
             blocks,
+            announced: vec![],
         }
     }
 
